@@ -119,6 +119,17 @@ pub struct GhostV {
 impl GhostV {
     /// installs the cards (phase 0) and, under Kani, draws V for every weight-5 mask
     pub fn install(cards: [u32; 7], n: usize) -> GhostV {
+        Self::install_with(cards, n, true)
+    }
+
+    /// V without the range clause: any u16, 0 included (the six/seven code skips zero
+    /// values). The contract is then only "a function of the card set" (k1 + k3 + sort_lemma).
+    pub fn install_any(cards: [u32; 7], n: usize) -> GhostV {
+        Self::install_with(cards, n, false)
+    }
+
+    #[allow(unused_variables)]
+    fn install_with(cards: [u32; 7], n: usize, in_range: bool) -> GhostV {
         #[cfg(kani)]
         unsafe {
             G_CARDS[0] = cards;
@@ -130,7 +141,7 @@ impl GhostV {
             while m < 128 {
                 if (m as u8).count_ones() == 5 && m < (1usize << n) {
                     let v: u16 = kani::any();
-                    kani::assume(v >= 1 && v <= 7462);
+                    kani::assume(!in_range || (v >= 1 && v <= 7462));
                     G_VALS[m] = v;
                 }
                 m += 1;
